@@ -157,6 +157,8 @@ def execute(scn):
         ys = rp.final_yields(t)
         if ys is None:
             continue
+        if fe != "qcconfig" and t.steps > len(exp) + 1:
+            V.append(violation(PROP, "run", fe, "step-bound", f"{t.steps} steps for {len(exp)} configured calls"))
         final_desc = [rp.describe_item(i) for i, _ in ys]
         for kind, part in t.history[:-1]:
             pd_ = [rp.describe_item(i) for i, _ in part]
